@@ -328,7 +328,20 @@ func (a *Box2) lineIntersect(l *Line2) *Line2 {
 		}
 		p = a.Snap(p, tolerance)
 		// is the point in the box?
-		if a.Contains(p) {
+		if !a.Contains(p) {
+			continue
+		}
+		// Crossings of two box edges within the snapping tolerance of a box
+		// corner have distinct t-values, but snap to the same corner point:
+		// it's a single end point of the clipped piece.
+		dup := false
+		for _, q := range pSet {
+			if q == p {
+				dup = true
+				break
+			}
+		}
+		if !dup {
 			pSet = append(pSet, p)
 		}
 	}
